@@ -331,7 +331,14 @@ def reordered_pass(run, exe, requests, model, canon, label, isolate, timeout):
         q = requests[i]
         r = rng.random()
         if r < 0.25:
-            pz = _poison(q, rng)
+            # built from ANOTHER request of the stream (same operation when there is one): what a rejected call leaves behind
+            # must not leak into the next call, and it could only be noticed if it differs from the next call's own data
+            j = pure[rng.randrange(len(pure))]
+            for _ in range(8):
+                if requests[j].split()[0] == q.split()[0] and j != i:
+                    break
+                j = pure[rng.randrange(len(pure))]
+            pz = _poison(requests[j] if requests[j].split()[0] == q.split()[0] else q, rng)
             if pz:
                 seq.append(pz); back.append(None)
         seq.append(q); back.append(i)
